@@ -85,6 +85,10 @@ func drawRtCfg(e *Env) rtCfg {
 			c.Busy = 0
 		}
 		c.Inbound = e.Choose("cfg.inbound", 4)
+		if shape >= 5 && shape != 9 {
+			c.Lost = e.Choose("cfg.lost13", 3) // resent messages are paced like any other
+		}
+		c.CloseEarly = e.Choose("cfg.closeearly13", 5) == 0 // Close inside a busy window must not strand the senders
 	case "C14":
 		c.Lost = e.Choose("cfg.lost", 6)
 		c.Busy = e.Choose("cfg.busy4", 4)
@@ -158,6 +162,7 @@ type rtRun struct {
 	locks              []simrt.LockEvent
 	lockAt             []Stamp
 	lateSends          []*rtSend
+	postClose          []*rtSend // Sends issued right after Close returned
 	settled            Stamp
 }
 
@@ -255,7 +260,7 @@ func runRouter(e *Env) {
 	r.drain = true
 	// (the peer stops at its next action once drain is set; nothing may arrive after the settle point)
 	e.WaitDone("peer", lostGap+time.Second, func() bool { return r.stimLeft == 0 })
-	s.SleepFor(2*time.Second + time.Duration(c.Retain+65)*(c.P+time.Millisecond))
+	s.SleepFor(2*time.Second + time.Duration(c.Retain+65)*(c.P+time.Millisecond+c.SlowMax)) // long enough for any resend to finish
 	r.settled = e.Stamp()
 	// the client must still be able to send
 	if !r.closed {
@@ -298,6 +303,15 @@ func (r *rtRun) doClose() {
 	r.e.Fault("close-at-step")
 	r.rt.Close()
 	r.closeRet = r.e.Stamp()
+	// a Send after Close must still return (with an error): it runs in its own task so that a
+	// client that has deadlocked shows up in the oracle instead of wedging the harness
+	r.e.S.Spawn("post-close-send", func() {
+		id := r.newID()
+		call := &rtSend{ID: id, Inv: r.e.Stamp(), Task: r.e.S.CurrentID()}
+		r.postClose = append(r.postClose, call)
+		err := r.rt.Send(rtMessage(id))
+		call.Ret, call.Done, call.OK = r.e.Stamp(), true, err == nil
+	})
 }
 
 func (r *rtRun) reader() {
@@ -447,13 +461,13 @@ func checkRouter(r *rtRun) {
 				seen[id] = true
 			}
 		case "read":
-			rx = append(rx, wireEv{At: Stamp{rec.T, rec.Seq}, F: parseFrame(rec.Data)})
+			rx = append(rx, wireEv{At: Stamp{rec.T, rec.Seq}, F: parseFrame(wholeDatagram(rec))})
 		}
 	}
 	// which mutex is the send lock: the one application senders ask for
 	var sendMu *simrt.Mutex
 	harness := map[int]bool{}
-	for _, s := range append(append([]*rtSend(nil), r.sends...), r.lateSends...) {
+	for _, s := range append(append(append([]*rtSend(nil), r.sends...), r.lateSends...), r.postClose...) {
 		harness[s.Task] = true
 	}
 	for _, ev := range r.locks {
@@ -493,7 +507,7 @@ func checkRouter(r *rtRun) {
 		txs[i].Req = inLine(txs[i].Task, txs[i].At.Seq)
 	}
 	byID := map[int]*rtSend{}
-	for _, s := range append(append([]*rtSend(nil), r.sends...), r.lateSends...) {
+	for _, s := range append(append(append([]*rtSend(nil), r.sends...), r.lateSends...), r.postClose...) {
 		byID[s.ID] = s
 	}
 	// every transmission belongs to a Send; an application Send transmits exactly once
@@ -575,7 +589,9 @@ func checkRouter(r *rtRun) {
 			break
 		}
 		if tL == nil {
-			if !r.closed || r.closeInv.Seq > b.At.Seq+50 {
+			// (with an early Close the loop may have been waiting for the send lock behind a queue of
+			// senders since an earlier indication, and then ended: nothing can be demanded)
+			if !r.closed || r.closeInv.Seq > r.settled.Seq {
 				if r.settled.T-b.At.T > 100*time.Millisecond {
 					e.Violate("C13", "busy-ignored", "routing-busy indication read at %v was never taken in (the receive loop never asked for the send lock)", b.At.T)
 				}
@@ -607,6 +623,14 @@ func checkRouter(r *rtRun) {
 			e.Violate("C13", "send-never-returned", "Send id=%d invoked at %v never returned (client deadlocked)", s.ID, s.Inv.T)
 			e.Violate("C14", "send-never-returned", "Send id=%d invoked at %v never returned (client deadlocked)", s.ID, s.Inv.T)
 			break
+		}
+	}
+	for _, s := range r.postClose {
+		if !s.Done {
+			e.Violate("C13", "send-never-returned", "a Send invoked at %v, right after Close had returned, never returned (the send lock was left locked)", s.Inv.T)
+			e.Violate("C14", "send-never-returned", "a Send invoked at %v, right after Close had returned, never returned (the send lock was left locked)", s.Inv.T)
+		} else if s.OK {
+			e.Probe("send-after-close-succeeded")
 		}
 	}
 	for _, s := range r.lateSends {
@@ -687,7 +711,9 @@ func checkC14(r *rtRun, txs []rtTx, rx []wireEv, byID map[int]*rtSend) {
 		if li+1 < len(lostRx) {
 			end = lostRx[li+1].At.Seq
 		}
-		cut := r.closed && r.closeInv.Seq < end // Close interrupted the resend: a prefix is all there can be
+		// Close interrupted the resend: a prefix is all there can be. (The harness's own Close at
+		// the end of the run comes after the settle point, by which every resend has finished.)
+		cut := r.closed && r.closeInv.Seq < end && r.closeInv.Seq < r.settled.Seq
 		if li+1 < len(lostRx) {
 			cut = true // ... or the next lost indication arrived while it was still running
 		}
@@ -745,7 +771,7 @@ func checkC14(r *rtRun, txs []rtTx, rx []wireEv, byID map[int]*rtSend) {
 				}
 			}
 		}
-		closedSoon := r.closed && r.closeInv.Seq < end && len(resent) == 0
+		closedSoon := r.closed && r.closeInv.Seq < end && r.closeInv.Seq < r.settled.Seq && len(resent) == 0
 		if matched < 0 {
 			if !closedSoon {
 				e.Violate("C14", "wrong-resend", "routing-lost{count=%d} read at %v with %d messages retained (limit %d): expected the resend %s (or the same suffix of the window after up to %d further transmissions), the client resent %s", k, L.At.T, len(W), retain, brief(expect0), limit, brief(resent))
